@@ -13,6 +13,7 @@
 (* must be accepted, the object tree it denotes.                            *)
 (***************************************************************************)
 EXTENDS ParserImpl, TLC
+CONSTANT MaxMut    \* 1: every single mutation (exhaustive); 2-3: chains of mutations, explored with tlc -simulate
 CONSTANT Mode      \* "c07": the core documents; "c08": plus out-of-range coordinates and the Circle convention
 VARIABLES b, mut
 vars == <<b, mut>>
@@ -113,15 +114,17 @@ Apply(d, p, op) ==
           [] op = Len(Repl) + 4 -> DupBefore(d, p, Sub(d, p))
           [] op = Len(Repl) + 5 -> DupAfter(d, p, P2(6,6))
           [] op = Len(Repl) + 6 -> ToFront(d, p)
+RECURSIVE ApplyAll(_,_)
+ApplyAll(d, ms) == IF ms = <<>> THEN d ELSE ApplyAll(Apply(d, ms[1][1], ms[1][2]), Tail(ms))
+Doc == IF b = 0 THEN Null ELSE ApplyAll(BaseDocs[b], mut)
 Init == b = 0 /\ mut = <<>>
 Next == \/ b = 0 /\ \E k \in 1..Len(BaseDocs) : b' = k /\ mut' = <<>>
-        \/ b > 0 /\ mut = <<>> /\ \E p \in Paths(BaseDocs[b]) \ {<<>>} : \E op \in 1..NOps : mut' = <<p, op>> /\ b' = b
+        \/ b > 0 /\ Len(mut) < MaxMut /\ \E p \in Paths(Doc) \ {<<>>} : \E op \in 1..NOps : mut' = Append(mut, <<p, op>>) /\ b' = b
 Spec == Init /\ [][Next]_vars
-Doc == IF mut = <<>> THEN BaseDocs[b] ELSE Apply(BaseDocs[b], mut[1], mut[2])
 \* base documents are well formed: they must be accepted
 BaseAccepted == b > 0 /\ mut = <<>> => Verdict(BaseDocs[b]) = "acc"
 Emit == b > 0 => LET d == Doc v == Verdict(d) l2 == AcceptL2(d) IN
-        PrintT(ToString(<<"DOC", b, mut, d, v, IF v = "acc" THEN Decode(d) ELSE <<>>, l2[1], l2[2]>>))
+        PrintT(ToString(<<"DOC", b, IF Len(mut) = 1 THEN mut[1] ELSE mut, d, v, IF v = "acc" THEN Decode(d) ELSE <<>>, l2[1], l2[2]>>))
 \* T7a: where L1 decides, the transcription of the parser agrees, except at the listed sites (printed as DEV)
 T7a == b > 0 => LET d == Doc v == Verdict(d) l2 == AcceptL2(d) IN
         v = "uns" \/ (v = "acc") = l2[1] \/ PrintT(ToString(<<"DEV", l2[2], v, d>>))
